@@ -338,7 +338,7 @@ package rux
 //@   modifies lmem(_, _), lclock(_), ln(_), guard(_)
 //@   ghostset guard(result.list) = result.lock
 //@   ensures inv: size >= 0 ==> cacheInv(result)
-//@   ensures empty: len(result.hashMap) == 0 && result.size == size && fresh(result) && held(result.lock) == 0
+//@   ensures empty: len(result.hashMap) == 0 && result.size == size && fresh(result) && held(result.lock) == 0 && (forall k string :: !(k in result.hashMap))
 //
 //@ func (*cachedRoutes).Len [C14, C03]
 //@   reveals cacheInv, mostRecent, othersKeepOrder
@@ -395,6 +395,7 @@ package rux
 //
 //@ extern strings.TrimSpace(s) (r)
 //@   pure
+//@   ensures r == uf("trimspace", string, s)
 //@   ensures s == uf("trimspace.l", string, s) ++ r ++ uf("trimspace.r", string, s)
 //@   ensures allspace(uf("trimspace.l", string, s)) && allspace(uf("trimspace.r", string, s))
 //@   ensures r == "" || (!isspace(at(r, 0)) && !isspace(at(r, len(r) - 1)))
@@ -652,7 +653,7 @@ package rux
 //@   ghostset lastMethod(r) = method
 //@   ensures recorded: lastRoute(r) == route && lastAlm(r) == len(alm) && lastPath(r) == path && lastMethod(r) == method
 //@   ensures wf: tablesWF(r) && methodsTable() && (validMethod(method) ==> cacheNN(r))
-//@   ensures dispatchable: route != nil ==> routeOK(route) && isReg(route) && len(alm) == 0
+//@   ensures dispatchable: route != nil ==> routeOK(route) && len(alm) == 0
 //@   ensures[C04, C05] chains_fit: old(chainsFit(r)) ==> chainsFit(r) && (route != nil ==> fits(r, route))
 //@   ensures no_params_without_route: route == nil ==> ps == nil
 //@   ensures[C11, C06] one_normaliser: lastLookup(r) == lookupPath(r, path)
@@ -807,17 +808,19 @@ package rux
 //@   ensures copy: result != nil && fresh(result) && copyOf(result, r) && result.params == ps && result.regex == nil && len(result.matches) == 0
 //@   ensures isReg(result) == old(isReg(r)) && (forall x ref :: x != result ==> isReg(x) == old(isReg(x)))
 
-//@ spec listWF(rs routes) bool = forall i int :: 0 <= i && i < len(rs) ==> rs[i] != nil && routeWF(rs[i]) && routeOK(rs[i]) && isReg(rs[i])
+//@ spec listWF(rs routes) bool = forall i int :: 0 <= i && i < len(rs) ==> rs[i] != nil && routeWF(rs[i]) && routeOK(rs[i])
 //@ spec cacheReady(r *Router) bool = (r.cachedRoutes != nil ==> cacheInv(r.cachedRoutes)) && (r.cachedRoutes != nil ==> held(r.cachedRoutes.lock) == 0)
-//@     && (r.cachedRoutes != nil ==> (forall k string :: k in r.cachedRoutes.hashMap ==> view(r.cachedRoutes, k) != nil && routeOK(view(r.cachedRoutes, k)) && isReg(view(r.cachedRoutes, k))))
-//@ spec tablesWF(r *Router) bool = (forall k string :: k in r.regularRoutes ==> listWF(r.regularRoutes[k]))
+//@     && (r.cachedRoutes != nil ==> (forall k string :: k in r.cachedRoutes.hashMap ==> view(r.cachedRoutes, k) != nil && routeOK(view(r.cachedRoutes, k))))
+//@ spec tablesCore(r *Router) bool = (forall k string :: k in r.regularRoutes ==> listWF(r.regularRoutes[k]))
 //@     && (forall k string :: k in r.irregularRoutes ==> listWF(r.irregularRoutes[k]))
-//@     && (forall k string :: k in r.stableRoutes ==> r.stableRoutes[k] != nil && routeOK(r.stableRoutes[k]) && isReg(r.stableRoutes[k]))
+//@     && (forall k string :: k in r.stableRoutes ==> r.stableRoutes[k] != nil && routeOK(r.stableRoutes[k]))
 //@     && cacheReady(r)
-//@     && (r.enableCaching && r.cachedRoutes == nil ==> (forall k string :: !(k in r.regularRoutes)) && (forall k string :: !(k in r.irregularRoutes)))
+// the cache exists as soon as there are dynamic routes (AddRoute creates it after appendRoute)
+//@ spec cacheExists(r *Router) bool = r.enableCaching && r.cachedRoutes == nil ==> (forall k string :: !(k in r.regularRoutes)) && (forall k string :: !(k in r.irregularRoutes))
+//@ spec tablesWF(r *Router) bool = tablesCore(r) && cacheExists(r)
 //
 //@ func (*Router).cacheDynamicRoute [C07, C14, C13, C03]
-//@   requires route != nil && routeOK(route) && isReg(route) && cacheReady(r) && (r.enableCaching ==> r.cachedRoutes != nil)
+//@   requires route != nil && routeOK(route) && cacheReady(r) && (r.enableCaching ==> r.cachedRoutes != nil)
 //@   modifies held(r.cachedRoutes.lock), entries(r.cachedRoutes.hashMap), lmem(r.cachedRoutes.list, _), rank(_), lclock(r.cachedRoutes.list), ln(r.cachedRoutes.list), lback(r.cachedRoutes.list), cacheNode.Value
 //@   modifies isReg(_)
 //@   ensures ready: cacheReady(r)
@@ -852,7 +855,7 @@ package rux
 //@   modifies lastLookup(r)
 //@   ghostset lastLookup(r) = path
 //@   ensures lookup_recorded: lastLookup(r) == path
-//@   ensures result_is_registered: rt != nil ==> routeOK(rt) && isReg(rt)
+//@   ensures result_is_dispatchable: rt != nil ==> routeOK(rt)
 //@   ensures[C04, C05] chains_fit: old(chainsFit(r)) ==> chainsFit(r) && (rt != nil ==> fits(r, rt))
 //@   ensures no_params_without_route: rt == nil ==> ps == nil
 //@   ensures[C06, C07] cache_stays_consistent: okMP(method, path) ==> cacheNN(r)
@@ -913,3 +916,164 @@ package rux
 //@   invariant 0 <= iterpos && iterpos <= itercard && len(allowed) == iterpos && (arr(allowed) == nil || fresh(arr(allowed)))
 //@   invariant forall q int :: 0 <= q && q < iterpos ==> allowed[q] == iterkey(q)
 //@   invariant tablesWF(r) && (prefixof("/", path) ==> cacheNN(r)) && (old(chainsFit(r)) ==> chainsFit(r))
+
+// ---------------------------------------------------------------------------
+// Registration: pattern parsing (C13, C01, C02). The pattern -> regexp translation itself is string
+// assembly handed to regexp.MustCompile: its meaning is outside what a contract can express (bounded
+// stand-in, see DESIGN.md); what is proved is the group-count check (routeWF) that lookup relies on.
+//
+//@ extern regexp.MustCompile(str) (re)
+//@   panics *
+//@   ensures re != nil
+//@ extern (*regexp.Regexp).FindAllString(re, s, n) (ss)
+//@   requires re != nil
+//@ extern strings.SplitN(s, sep, n) (parts)
+//@   ensures len(parts) >= 1 && len(parts) <= max(n, 1)
+//@ extern strings.NewReplacer(oldnew) (rp)
+//@   panics *
+//@   ensures rp != nil
+//@ extern (*strings.Replacer).Replace(rp, s) (out)
+//@   requires rp != nil
+//@   pure
+//@ extern strings.Replace(s, old, new, n) (out)
+//@   pure
+//@ extern strings.Count(s, substr) (n)
+//@   pure
+//@   ensures n >= 0
+//
+//@ func (*Route).goodRegexGroups [C13, C02]
+//@   reveals routeWF
+//@   requires r.regex != nil
+//@   panics *
+//@   ensures groups_match_vars: routeWF(r)
+//@ func (*Router).parseParamRoute [C13, C01, C02]
+//@   requires route != nil && varRegex != nil
+//@   panics *
+//@   modifies route.regex, route.matches, route.spath, route.start, allelems([]string), firstSeg(route)
+//@   ghostset firstSeg(route) = first
+//@   ensures first_recorded: firstSeg(route) == first
+//@   ensures groups_match_vars: routeWF(route)
+//@ loop (*Router).parseParamRoute #0
+//@   vars rangeindex
+//@   invariant -1 <= rangeindex
+
+// ---------------------------------------------------------------------------
+// Registration: tables (C01, C13, C15, C12). R-reg: registration happens before the first request, so the
+// route cache holds no entry while routes are added (noCacheEntries).
+//
+// firstSeg(rt): the literal first segment returned by parseParamRoute for rt ("" = irregular tier).
+//@ ghost firstSeg(ref) string
+//@ spec fixedPath(p string) bool = indexof(p, "{") < 0 && indexof(p, "[") < 0
+//@ spec noCacheEntries(r *Router) bool = r.cachedRoutes != nil ==> (forall k string :: !(k in r.cachedRoutes.hashMap))
+//@ spec tablesSep(r *Router) bool = (forall k1 string, k2 string :: k1 in r.regularRoutes && k2 in r.regularRoutes && k1 != k2 ==> arr(r.regularRoutes[k1]) != arr(r.regularRoutes[k2]))
+//@     && (forall k1 string, k2 string :: k1 in r.irregularRoutes && k2 in r.irregularRoutes && k1 != k2 ==> arr(r.irregularRoutes[k1]) != arr(r.irregularRoutes[k2]))
+//@     && (forall k1 string, k2 string :: k1 in r.regularRoutes && k2 in r.irregularRoutes ==> arr(r.regularRoutes[k1]) != arr(r.irregularRoutes[k2]))
+//@     && (forall k string :: k in r.regularRoutes ==> arr(r.regularRoutes[k]) != nil && len(r.regularRoutes[k]) >= 1)
+//@     && (forall k string :: k in r.irregularRoutes ==> arr(r.irregularRoutes[k]) != nil && len(r.irregularRoutes[k]) >= 1)
+//@     && r.regularRoutes != r.irregularRoutes && r.regularRoutes != nil && r.irregularRoutes != nil && r.stableRoutes != nil && r.namedRoutes != nil && r.stableRoutes != r.namedRoutes
+//
+//@ func (*Router).appendGroupInfo [C11, C12, C13, C04]
+//@   requires route != nil
+//@   panics *
+//@   modifies route.handlers, route.path
+//@   ensures[C11, C12] path_normalised_with_prefix: route.path == (r.currentGroupPrefix == "" ? fp(old(route.path), r.strictLastSlash)
+//@       : fp(r.currentGroupPrefix + fp(old(route.path), r.strictLastSlash), r.strictLastSlash))
+//@   ensures[C11] normal_form: NF(route.path, r.strictLastSlash)
+//@   ensures[C12, C04] group_middleware_first: len(r.currentGroupHandlers) > 0 ==> fresh(arr(route.handlers))
+//@       && len(route.handlers) == len(r.currentGroupHandlers) + old(len(route.handlers)) && len(route.handlers) < 63
+//@       && (forall i int :: 0 <= i && i < len(r.currentGroupHandlers) ==> route.handlers[i] == r.currentGroupHandlers[i])
+//@       && (forall i int :: 0 <= i && i < old(len(route.handlers)) ==> route.handlers[len(r.currentGroupHandlers) + i] == old(route.handlers[i]))
+//@   ensures[C12] outside_groups_untouched: len(r.currentGroupHandlers) == 0 ==> route.handlers == old(route.handlers)
+
+//@ trusted debugPrintRoute(route)
+//@   pure
+//
+//@ func (*Router).appendRoute [C01, C13, C15, C12]
+//@   reveals routeWF
+//@   requires route != nil && tablesCore(r) && tablesSep(r) && noCacheEntries(r) && methodsTable() && varRegex != nil && len(route.handlers) < 63
+//@   panics *
+//@   modifies route.handlers, route.path, route.regex, route.matches, route.spath, route.start, allelems([]string), allelems([]*Route)
+//@   modifies r.counter, entries(r.namedRoutes), entries(r.stableRoutes), entries(r.regularRoutes), entries(r.irregularRoutes), isReg(route), firstSeg(route)
+//@   ghostset isReg(route) = true
+//@   ensures[C13] accepted_is_valid: route.handler != nil && len(route.methods) > 0 && len(route.handlers) < 63
+//@       && (forall i int :: 0 <= i && i < len(route.methods) ==> isMethod(route.methods[i]))
+//@   ensures[C13, C02] dynamic_is_well_formed: !fixedPath(route.path) ==> routeWF(route)
+//@   ensures wf: tablesCore(r) && tablesSep(r) && noCacheEntries(r)
+//@   ensures[C15] named: route.name != "" ==> route.name in r.namedRoutes && r.namedRoutes[route.name] == route
+//@   ensures[C15] other_names_kept: forall n string :: n != route.name ==> (n in r.namedRoutes) == old(n in r.namedRoutes) && r.namedRoutes[n] == old(r.namedRoutes[n])
+//@   ensures[C01] static_put: fixedPath(route.path) ==> (forall i int :: 0 <= i && i < len(route.methods) ==>
+//@       (route.methods[i] + route.path) in r.stableRoutes && r.stableRoutes[route.methods[i] + route.path] == route)
+//@   ensures[C01] static_others_kept: forall k string :: (forall i int :: 0 <= i && i < len(route.methods) ==> k != route.methods[i] + route.path)
+//@       ==> (k in r.stableRoutes) == old(k in r.stableRoutes) && r.stableRoutes[k] == old(r.stableRoutes[k])
+//@   ensures[C01] dynamic_not_in_static: !fixedPath(route.path) ==> (forall k string :: (k in r.stableRoutes) == old(k in r.stableRoutes) && r.stableRoutes[k] == old(r.stableRoutes[k]))
+//@   ensures[C01] irregular_appended: !fixedPath(route.path) && firstSeg(route) == "" ==> (forall i int :: 0 <= i && i < len(route.methods) ==>
+//@       route.methods[i] in r.irregularRoutes && len(r.irregularRoutes[route.methods[i]]) >= 1
+//@       && r.irregularRoutes[route.methods[i]][len(r.irregularRoutes[route.methods[i]]) - 1] == route)
+//@   ensures[C01] irregular_earlier_routes_kept: forall k string :: old(k in r.irregularRoutes) ==> k in r.irregularRoutes && len(r.irregularRoutes[k]) >= old(len(r.irregularRoutes[k]))
+//@       && (forall j int :: 0 <= j && j < old(len(r.irregularRoutes[k])) ==> r.irregularRoutes[k][j] == old(r.irregularRoutes[k][j]))
+//@   ensures[C01] regular_appended: !fixedPath(route.path) && firstSeg(route) != "" ==> (forall i int :: 0 <= i && i < len(route.methods) ==>
+//@       (route.methods[i] + firstSeg(route)) in r.regularRoutes && len(r.regularRoutes[route.methods[i] + firstSeg(route)]) >= 1
+//@       && r.regularRoutes[route.methods[i] + firstSeg(route)][len(r.regularRoutes[route.methods[i] + firstSeg(route)]) - 1] == route)
+//@   ensures[C01] regular_earlier_routes_kept: forall k string :: old(k in r.regularRoutes) ==> k in r.regularRoutes && len(r.regularRoutes[k]) >= old(len(r.regularRoutes[k]))
+//@       && (forall j int :: 0 <= j && j < old(len(r.regularRoutes[k])) ==> r.regularRoutes[k][j] == old(r.regularRoutes[k][j]))
+//@ loop (*Router).appendRoute #0
+//@   vars rangeindex
+//@   modifies r.counter, entries(r.stableRoutes)
+//@   invariant -1 <= rangeindex && rangeindex < len(route.methods)
+//@   invariant tablesCore(r) && tablesSep(r) && noCacheEntries(r)
+//@   invariant forall i int :: 0 <= i && i <= rangeindex ==> (route.methods[i] + route.path) in r.stableRoutes && r.stableRoutes[route.methods[i] + route.path] == route
+//@   invariant forall k string :: (forall i int :: 0 <= i && i <= rangeindex ==> k != route.methods[i] + route.path)
+//@       ==> (k in r.stableRoutes) == old(k in r.stableRoutes) && r.stableRoutes[k] == old(r.stableRoutes[k])
+//@ loop (*Router).appendRoute #1
+//@   vars rangeindex
+//@   modifies r.counter, entries(r.regularRoutes), allelems([]*Route)
+//@   invariant -1 <= rangeindex && rangeindex < len(route.methods)
+//@   invariant tablesCore(r) && tablesSep(r) && noCacheEntries(r)
+//@   invariant in_table: forall i int :: 0 <= i && i <= rangeindex ==> (route.methods[i] + firstSeg(route)) in r.regularRoutes
+//@   invariant never_shorter: forall k string :: len(r.regularRoutes[k]) >= old(len(r.regularRoutes[k])) && old(len(r.regularRoutes[k])) >= 0
+//@   invariant last_is_route: forall i int :: 0 <= i && i <= rangeindex ==> r.regularRoutes[route.methods[i] + firstSeg(route)][len(r.regularRoutes[route.methods[i] + firstSeg(route)]) - 1] == route
+//@   invariant forall k string :: old(k in r.regularRoutes) ==> k in r.regularRoutes && len(r.regularRoutes[k]) >= old(len(r.regularRoutes[k]))
+//@       && (forall j int :: 0 <= j && j < old(len(r.regularRoutes[k])) ==> r.regularRoutes[k][j] == old(r.regularRoutes[k][j]))
+//@   invariant forall k string :: old(k in r.irregularRoutes) ==> (forall j int :: 0 <= j && j < old(len(r.irregularRoutes[k])) ==> r.irregularRoutes[k][j] == old(r.irregularRoutes[k][j]))
+//@ loop (*Router).appendRoute #2
+//@   vars rangeindex
+//@   modifies r.counter, entries(r.irregularRoutes), allelems([]*Route)
+//@   invariant -1 <= rangeindex && rangeindex < len(route.methods)
+//@   invariant tablesCore(r) && tablesSep(r) && noCacheEntries(r)
+//@   invariant in_table: forall i int :: 0 <= i && i <= rangeindex ==> route.methods[i] in r.irregularRoutes
+//@   invariant never_shorter: forall k string :: len(r.irregularRoutes[k]) >= old(len(r.irregularRoutes[k])) && old(len(r.irregularRoutes[k])) >= 0
+//@   invariant last_is_route: forall i int :: 0 <= i && i <= rangeindex ==> r.irregularRoutes[route.methods[i]][len(r.irregularRoutes[route.methods[i]]) - 1] == route
+//@   invariant forall k string :: old(k in r.irregularRoutes) ==> k in r.irregularRoutes && len(r.irregularRoutes[k]) >= old(len(r.irregularRoutes[k]))
+//@       && (forall j int :: 0 <= j && j < old(len(r.irregularRoutes[k])) ==> r.irregularRoutes[k][j] == old(r.irregularRoutes[k][j]))
+//@   invariant forall k string :: old(k in r.regularRoutes) ==> (forall j int :: 0 <= j && j < old(len(r.regularRoutes[k])) ==> r.regularRoutes[k][j] == old(r.regularRoutes[k][j]))
+
+//@ func (*Router).AddRoute [C01, C13, C14, C15]
+//@   requires route != nil && tablesWF(r) && tablesSep(r) && noCacheEntries(r) && methodsTable() && varRegex != nil && len(route.handlers) < 63
+//@   panics *
+//@   modifies route.handlers, route.path, route.regex, route.matches, route.spath, route.start, allelems([]string), allelems([]*Route)
+//@   modifies r.counter, entries(r.namedRoutes), entries(r.stableRoutes), entries(r.regularRoutes), entries(r.irregularRoutes), isReg(route), firstSeg(route)
+//@   modifies r.cachedRoutes, lmem(_, _), lclock(_), ln(_), guard(_)
+//@   ensures wf: tablesWF(r) && tablesSep(r) && noCacheEntries(r) && result == route
+//@   ensures[C14] cache_created_with_capacity: r.enableCaching && old(r.cachedRoutes) == nil ==> r.cachedRoutes != nil && r.cachedRoutes.size == r.maxNumCaches
+//@   ensures[C14] existing_cache_kept: old(r.cachedRoutes) != nil ==> r.cachedRoutes == old(r.cachedRoutes)
+//
+//@ func NewRoute [C11, C13]
+//@   ensures fresh_route: result != nil && fresh(result) && result.path == sfp(path) && result.handler == handler && len(result.handlers) == 0 && result.name == ""
+//@ func NewNamedRoute [C11, C15]
+//@   ensures fresh_route: result != nil && fresh(result) && result.path == sfp(path) && result.handler == handler && len(result.handlers) == 0
+//@       && result.name == uf("trimspace", string, name)
+//
+//@ func (*Router).GetRoute [C15]
+//@   ensures result == r.namedRoutes[name]
+//@ func (*Route).NamedTo [C15]
+//@   requires router != nil && router.namedRoutes != nil
+//@   modifies r.name, entries(router.namedRoutes)
+//@   ensures named: uf("trimspace", string, name) != "" ==> r.name == uf("trimspace", string, name) && r.name in router.namedRoutes && router.namedRoutes[r.name] == r
+//@   ensures other_names_kept: forall n string :: n != uf("trimspace", string, name) ==> (n in router.namedRoutes) == old(n in router.namedRoutes) && router.namedRoutes[n] == old(router.namedRoutes[n])
+//@   ensures blank_name_ignored: uf("trimspace", string, name) == "" ==> r.name == old(r.name)
+
+//@ func formatMethods [C13]
+//@   ensures len(formatted) <= len(methods) && (len(formatted) > 0 ==> fresh(arr(formatted)))
+//@ loop formatMethods #0
+//@   vars rangeindex, formatted
+//@   invariant -1 <= rangeindex && rangeindex + 1 <= len(methods) && len(formatted) <= rangeindex + 1 && (arr(formatted) == nil || fresh(arr(formatted)))
